@@ -294,6 +294,12 @@ def verifyChannelDefinitions (env : Env) (defs : GoMap Nat ChanDef) : Bool :=
   let sids := (defs.flatMap fun e => e.2.streams.map (·.sid)).eraseDups
   sids.length ≤ env.maxStreamValues
 
+/-- a stream value `ValidateObservation` accepts: a timestamped value wraps a decimal -/
+def svAcceptable : SV → Bool
+  | .tsv _ (.dec _) => true
+  | .tsv _ _ => false
+  | _ => true
+
 /-- `Plugin.ValidateObservation` on a decoded observation (`none` = accepted, `some cls` = rejected).
     `emptyBytes` says whether the raw observation was the empty byte string (required for SeqNr 1);
     a decode failure is reported by the caller before this function is reached. -/
@@ -305,10 +311,7 @@ def validateObservation (env : Env) (cfg : Cfg) (seqNr : Nat) (emptyBytes : Bool
   else if o.removes.length > env.maxRemove then some "too-many-removes"
   else if !verifyChannelDefinitions env o.updates then some "invalid-definitions"
   else if o.values.length > env.maxStreamValues then some "too-many-values"
-  else if o.values.any (fun e => match e.2 with
-      | .tsv _ (.dec _) => false
-      | .tsv _ _ => true
-      | _ => false) then some "nested-not-decimal"
+  else if o.values.any (fun e => !svAcceptable e.2) then some "nested-not-decimal"
   else none
 
 /-- `ChannelDefinition.Equals` -/
